@@ -45,10 +45,16 @@ pub enum PTy {
     Proj,
     /// `&(dyn for<'h> LtLabel<'h> + Sync)`: an elided reference to a type that binds a lifetime of its own
     RefDynHrtb,
+    /// `impl LtLabel<'l>`: a lifetime inside an argument-position `impl Trait` is none of the input's (it is a type parameter's)
+    ImplLt(usize),
+    /// `&'l Holder<'l>`: one parameter that mentions one named lifetime twice has one lifetime
+    RefNamedTwice(usize),
+    /// `W::<&u8>(p): W<&u8>`: the elided reference inside the *pattern* is not an input lifetime, the one in the type is
+    PatTurbofish,
 }
 
 fn is_elided_ref(p: &PTy) -> bool {
-    matches!(p, PTy::RefElided | PTy::RefDynHrtb)
+    matches!(p, PTy::RefElided | PTy::RefDynHrtb | PTy::PatTurbofish)
 }
 
 #[derive(Clone, Debug, PartialEq)]
@@ -158,6 +164,9 @@ impl Sig {
             PTy::DepsVec => "Vec<D>".into(),
             PTy::Proj => "P::Out".into(),
             PTy::RefDynHrtb => "&(dyn for<'h> LtLabel<'h> + Sync)".into(),
+            PTy::ImplLt(l) => format!("impl LtLabel<{}>{}", LT[*l], if self.is_async && !self.maybe_send_off { " + Send" } else { "" }),
+            PTy::RefNamedTwice(l) => format!("&{0} Holder<{0}>", LT[*l]),
+            PTy::PatTurbofish => "W<&u8>".into(),
         }
     }
 
@@ -325,7 +334,11 @@ impl Sig {
             ps.push(d);
         }
         for (i, p) in self.params.iter().enumerate() {
-            ps.push(format!("p{i}: {}", self.pty_src(p)));
+            if *p == PTy::PatTurbofish {
+                ps.push(format!("W::<&u8>(p{i}): {}", self.pty_src(p)));
+            } else {
+                ps.push(format!("p{i}: {}", self.pty_src(p)));
+            }
         }
         let quals = format!("{}{}{}", if self.is_async { "async " } else { "" }, if self.is_unsafe { "unsafe " } else { "" }, if self.extern_c && self.extern_bare { "extern " } else if self.extern_c { "extern \"C\" " } else { "" });
         let vis = if self.vis.is_empty() { String::new() } else { format!("{} ", self.vis) };
@@ -359,6 +372,8 @@ impl Sig {
         match p {
             PTy::RefElided => format!("&{} str", elided_as(i)),
             PTy::RefDynHrtb => format!("&{} (dyn for<'h> LtLabel<'h> + Sync)", elided_as(i)),
+            PTy::ImplLt(_) => "(u8, i8)".into(),
+            PTy::PatTurbofish => format!("W<&{} u8>", elided_as(i)),
             PTy::Gen => "i64".into(),
             PTy::RefGenNamed(l) => format!("&{} i64", LT[*l]),
             PTy::ArrConst => "[u8; 3]".into(),
@@ -577,7 +592,7 @@ pub fn gen_sig(t: &mut Tape, excl: &Excl) -> Sig {
     let deps_has_ref = matches!(deps, Deps::RefGeneric | Deps::RefImpl | Deps::ConcreteRef | Deps::ConcreteRefNamed);
     let mut used_elided = false;
     for _ in 0..n {
-        let p = match t.weighted(&[4, 2, 2, 3, 1, 2, 1, 1, 1, 1, 1, 1]) {
+        let p = match t.weighted(&[4, 2, 2, 3, 1, 2, 1, 1, 1, 1, 1, 1, 1, 1, 1]) {
             0 => PTy::I32,
             1 => PTy::Owned,
             2 => PTy::RefElided,
@@ -590,6 +605,9 @@ pub fn gen_sig(t: &mut Tape, excl: &Excl) -> Sig {
             9 => PTy::BoxDyn,
             10 if n_lifetimes > 0 => PTy::SliceNamed(t.choose(n_lifetimes)),
             11 => PTy::RefDynHrtb,
+            12 if n_lifetimes > 0 => PTy::ImplLt(t.choose(n_lifetimes)),
+            13 if n_lifetimes > 0 => PTy::RefNamedTwice(t.choose(n_lifetimes)),
+            14 => PTy::PatTurbofish,
             _ => PTy::I32,
         };
         if p == PTy::RefElided {
@@ -610,14 +628,14 @@ pub fn gen_sig(t: &mut Tape, excl: &Excl) -> Sig {
     let n_elided = params.iter().filter(|p| is_elided_ref(p)).count();
     // return type: only relations that are valid in the ORIGINAL fn
     let mut rets = vec![RTy::Unit, RTy::I32, RTy::Owned];
-    let named_ref_args: Vec<usize> = params.iter().filter_map(|p| if let PTy::RefNamed(l) = p { Some(*l) } else { None }).collect();
+    let named_ref_args: Vec<usize> = params.iter().filter_map(|p| if let PTy::RefNamed(l) | PTy::RefNamedTwice(l) = p { Some(*l) } else { None }).collect();
     for l in &named_ref_args {
         rets.push(RTy::FromArg(*l));
         rets.push(RTy::OptFromArg(*l));
     }
     // elided output lifetime: valid iff exactly one reference-typed input overall (elided or named lifetimes all count as "input lifetimes")
     let n_lt_inputs = n_elided
-        + params.iter().filter(|p| matches!(p, PTy::RefNamed(_) | PTy::RefGenNamed(_) | PTy::SliceNamed(_) | PTy::MutVec)).count()
+        + params.iter().filter(|p| matches!(p, PTy::RefNamed(_) | PTy::RefNamedTwice(_) | PTy::RefGenNamed(_) | PTy::SliceNamed(_) | PTy::MutVec)).count()
         + if deps_has_ref { 1 } else { 0 };
     if deps_has_ref && (n_lt_inputs == 1 || deps == Deps::ConcreteRefNamed || deps_lifetime_bound) {
         rets.push(RTy::FromDeps);
@@ -704,7 +722,7 @@ pub struct Case {
 fn header() -> String {
     let mut s = String::from(
         "#![allow(warnings)]\n#![deny(unsafe_op_in_unsafe_fn)]\nuse ::core::marker::PhantomData;\nuse ::core::future::Future;\n\
-         pub struct Sel;\npub trait HasConf { type C; }\nimpl HasConf for Sel { type C = Conf; }\npub trait Rel<X> {}\nimpl<X> Rel<X> for i64 {}\npub trait Proj { type Out: Send + Sync + Default; }\nimpl Proj for u16 { type Out = u8; }\n\
+         pub struct Sel;\npub trait HasConf { type C; }\nimpl HasConf for Sel { type C = Conf; }\npub trait Rel<X> {}\nimpl<X> Rel<X> for i64 {}\npub trait Proj { type Out: Send + Sync + Default; }\nimpl Proj for u16 { type Out = u8; }\npub struct Holder<'h>(pub &'h str);\npub struct W<T>(pub T);\n\
          pub struct App;\npub struct Conf { pub s: String }\npub mod inner { pub struct PConf { pub s: String } }\npub struct GConf<T> { pub s: String, pub t: T }\npub type A = ::entrait::Impl<App>;\n\
          fn out<F: Future>(_: &F) -> PhantomData<F::Output> { PhantomData }\nfn is_send<T: Send>(_: &T) {}\n\
          pub trait LtLabel<'l> {}\nimpl<'l> LtLabel<'l> for (u8, i8) {}\nimpl<'l> LtLabel<'l> for [u8; 2] {}\nimpl<'l> LtLabel<'l> for fn(u8) -> u8 {}\n",
@@ -835,6 +853,18 @@ pub fn gen_case(t: &mut Tape, excl: &Excl) -> Case {
     }
     if sig.deps_lifetime_bound {
         classes.push("deps_lifetime_bound");
+    }
+    if sig.params.iter().any(|p| matches!(p, PTy::ImplLt(_))) {
+        classes.push("impl_trait_argument_carrying_a_lifetime");
+    }
+    if sig.params.iter().any(|p| matches!(p, PTy::RefNamedTwice(_))) {
+        classes.push("parameter_mentioning_one_named_lifetime_twice");
+    }
+    if sig.params.contains(&PTy::PatTurbofish) {
+        classes.push("reference_type_inside_a_parameter_pattern");
+    }
+    if matches!(sig.deps, Deps::NoDeps) && matches!(sig.ret, RTy::FromElidedArg | RTy::FromNamedArgElided(_)) && sig.params.iter().any(|p| matches!(p, PTy::ImplLt(_) | PTy::RefNamedTwice(_) | PTy::PatTurbofish)) {
+        classes.push("no_deps_elided_output_next_to_lifetimes_that_do_not_count");
     }
     if sig.params.contains(&PTy::RefDynHrtb) {
         classes.push("parameter_type_with_a_higher_ranked_lifetime");
